@@ -1102,6 +1102,14 @@ func init() {
 		n := int(a.elems[14].(*Term).bv)<<8 | int(a.elems[15].(*Term).bv)
 		return &Str{s: fmt.Sprintf("00000000-0000-4000-8000-%012d", n)}
 	}
+	I[zenoPath+"/internal/pkg/log/dumper.PanicWithDump"] = func(ip *Interp, fn *ssa.Function, args []Value) Value {
+		msg := "PanicWithDump"
+		if st, ok := args[0].(*Str); ok && !st.sym {
+			msg = st.s
+		}
+		ip.goPanic("dumper.PanicWithDump: " + msg)
+		return nil
+	}
 	I["runtime.Gosched"] = func(ip *Interp, fn *ssa.Function, args []Value) Value {
 		ip.schedPoint("Gosched", fn)
 		return nil
